@@ -23,10 +23,12 @@ from .. import tlc, tracecheck
 from ..core import Machinery
 from ..rigs import pilotkill_rig as K
 
-INVARIANTS = ['TypeOK', 'InvKilledNotNamed', 'InvNamedKilled']
+INVARIANTS = ['TypeOK', 'InvKilledNotNamed', 'InvNamedKilled', 'InvRightPilot', 'InvFinalReported']
 PROPERTIES = ['ActFinalKept']
 DEVS       = {'DevFinalFilterFirst': 'InvKilledNotNamed', 'DevNoPmgrCheck': 'InvKilledNotNamed',
-              'DevStopAtUnknown': 'InvNamedKilled', 'DevLaunchPrecancelled': 'InvNamedKilled'}
+              'DevStopAtUnknown': 'InvNamedKilled', 'DevNoRecheckAtLaunch': 'InvNamedKilled',
+              'DevLaunchOutsideLock': 'InvNamedKilled', 'DevRegisterAfterSubmit': 'InvFinalReported',
+              'DevReportForMate': 'InvRightPilot'}
 
 IDS = {'p1': K.PIDS[0], 'p2': K.PIDS[1], 'p3': K.PIDS[2], 'ux': K.GHOST}
 
@@ -48,17 +50,42 @@ def mc_cfg(pilots, maxreq, maxctl, devs=(), symmetry=True, invariants=None, prop
 
 # ------------------------------------------------------------------------------
 def script_from_behaviour(path, rng):
-    kinds, script = None, []
+    '''WorkBegin .. LaunchEnd of the model is ONE call of the real work(): what the model does
+       in between (phase staging / submit) becomes the steps of the other threads at the
+       schedule points of that call'''
+    kinds, script, work, later = None, [], None, []
     for act, args, st in tlc.parse_sim_file(path):
         if kinds is None:
             kd    = st['kind']
-            kinds = [kd[k] for k in sorted(kd)]
-        ids = [IDS[x] for x in re.findall(r'\b(p\d|ux)\b', args or '')]
-        if   act == 'Work'     : script.append(['work', ids])
-        elif act == 'Active'   : script.append(['active', ids[0]])
-        elif act == 'JobEnds'  : script.append(['jobends', ids[0], re.search(r'"(\w+)"', args).group(1)])
-        elif act == 'Deliver'  : script.append(['deliver'])
-        elif act == 'Close'    : script.append(['close'])
+            names = sorted(kd)
+            kinds = [kd[k] for k in names]
+        ids  = [IDS[x] for x in re.findall(r'\b(p\d|ux)\b', args or '')]
+        step = None
+        if act == 'WorkBegin':
+            work = ['work', ids, {'staging': [], 'submit': []}]
+            script.append(work)
+            phase = 'staging'
+            if st['wph'] == 'idle':
+                work = None
+        elif act == 'LaunchBegin':
+            phase = 'submit'
+            if st['wph'] == 'idle':
+                work = None
+        elif act == 'LaunchEnd':
+            work = None
+            script.extend(later)
+            later = []
+        elif act == 'Active'   : step = ['active', ids[0]]
+        elif act == 'JobEnds'  :
+            step = ['jobends', ids[0], re.search(r'"(\w+)"', args).group(1)]
+            if work and step[2] == 'FAILED' and kinds[names.index([k for k in IDS if IDS[k] == ids[0]][0])] == 'saga' \
+                    and ids[0] in work[1]:
+                # a SAGA job FAILED when run() returns fails the whole bulk (the sizing part's
+                # business): report it right after the submission
+                later.append(step)
+                step = None
+        elif act == 'Deliver'  : step = ['deliver']
+        elif act == 'Close'    : step = ['close']
         elif act in ('ReqKill', 'ReqCancel'):
             api  = 'kill' if act == 'ReqKill' else 'cancel'
             form = 'list'
@@ -66,11 +93,17 @@ def script_from_behaviour(path, rng):
                 form = rng.choice(['none', 'list'])
             elif len(ids) == 1:
                 form = rng.choice(['list', 'str'] + (['pilot'] if api == 'cancel' and ids[0] != K.GHOST else []))
-            script.append([api, ids, form])
+            step = [api, ids, form]
         elif act == 'ReqRaw':
-            script.append(['raw', ids, 'TRUE' in args,
-                           'str' if len(ids) == 1 and rng.random() < 0.3 else 'list'])
-    return kinds, script + [['flush'], ['end']]
+            step = ['raw', ids, 'TRUE' in args, 'str' if len(ids) == 1 and rng.random() < 0.3 else 'list']
+        if step:
+            (work[2][phase] if work else script).append(step)
+    for st_ in script:
+        if st_[0] == 'work':
+            st_[2] = {k: v for k, v in st_[2].items() if v}
+            if not st_[2]:
+                del st_[2]
+    return kinds, script + later + [['flush'], ['end']]
 
 
 # ------------------------------------------------------------------------------
@@ -141,6 +174,54 @@ def small_scope(rng, sample3):
                   [['flush'], ['end']]
 
 
+def launch_window(rng, sample3):
+    '''a kill request which lands while work() is busy with the pilot's bulk: 1..3 pilots in one
+       call of work(), launcher kinds, who is named, the point of the delivery (while the staging
+       directives / the tarball are staged - no lock; inside the submission - the component lock
+       is held, the control thread has to wait)'''
+    for n in (1, 2, 3):
+        pids = K.PIDS[:n]
+        scen = []
+        for kinds in itertools.product(K.KINDS, repeat=n):
+            subsets = [list(c) for k in range(1, n + 1) for c in itertools.combinations(pids, k)]
+            for u in subsets + [[]]:
+                for point in ('staging', 'tarball', 'submit'):
+                    scen.append((list(kinds), ['kill', u, 'list' if u else 'none'], point))
+                    scen.append((list(kinds), ['raw', u, True, 'list'], point))
+        if n == 3 and sample3 is not None and sample3 < len(scen):
+            scen = rng.sample(scen, sample3)
+        for kinds, req, point in scen:
+            yield kinds, [req, ['work', pids, {point: [['deliver']]}], ['flush'], ['end']]
+            if point == 'submit' and n > 1:
+                # the request itself is made while the jobs are submitted
+                yield kinds, [['work', pids, {'submit': [req, ['deliver']]}], ['flush'], ['end']]
+
+
+def job_reports(rng):
+    '''the batch layer reports job states from inside the submission on: bulks of 1..3 pilots of
+       one launcher, the job of one of them (every position) ends DONE / FAILED / CANCELED inside
+       submit() (after QUEUED / RUNNING) or right after it, the others later'''
+    for n in (1, 2, 3):
+        pids = K.PIDS[:n]
+        for kind in K.KINDS:
+            for x in pids:
+                for state in ('DONE', 'FAILED', 'CANCELED'):
+                    for when in ('submit', 'after'):
+                        if kind == 'saga' and state == 'FAILED' and when == 'submit':
+                            continue        # fails the whole bulk when run() returns: sizing part
+                        first = [['jobends', x, 'QUEUED']] + ([['jobends', x, 'RUNNING']] if rng.random() < 0.5 else [])
+                        rep   = first + [['jobends', x, state]]
+                        rest  = [['jobends', y, rng.choice(['DONE', 'FAILED', 'CANCELED'])] for y in pids if y != x]
+                        rng.shuffle(rest)
+                        work  = ['work', pids, {'submit': rep}] if when == 'submit' else ['work', pids]
+                        yield [kind] * n, [work] + (rep if when == 'after' else []) + rest[:rng.randint(0, len(rest))] + \
+                              [['kill', [], 'none'], ['flush'], ['end']]
+    # two bulks of different launchers in one call of work()
+    for x, state in itertools.product(K.PIDS[:2], ('DONE', 'CANCELED')):
+        yield ['psij', 'saga'], [['work', K.PIDS[:2], {'submit': [['jobends', x, state]]}],
+                                 ['jobends', K.PIDS[1 - K.PIDS.index(x)], 'FAILED'], ['flush'], ['end']]
+
+
 # ------------------------------------------------------------------------------
 FINALS = ('DONE', 'FAILED', 'CANCELED')
 
@@ -158,32 +239,84 @@ def _describe(what, named, views, pids):
     return what + ('; other pilots in the manager' if named and [p for p in pids if p not in named] else '')
 
 
+WHERE = {'staging': ' delivered while work() stages a bulk', 'tarball': ' delivered while work() stages a bulk',
+         'submit': ' delivered while the launcher submits jobs', 'unlock': '', 'none': ''}
+
+
 def classify(trace, clause=''):
-    '''the delivered control message at which the launcher did something to a pilot the message does
-       not mean (KilledNotNamed) / left out one it means (NamedNotKilled): what it is, the launcher's
-       view of the uids it names at that moment, whether the manager holds other pilots.  Without such
-       a delivery: the same for the first request of the scenario.'''
+    '''StateForWrongPilot / PilotFinalNotReported: the job report at which it shows (final or not,
+       from inside the submission or later, launcher, size of the bulk).
+       NamedNotKilled with a pilot which is remembered for cancellation and alive all the same: the
+       delivery which had it remembered, and where work() was at that moment.
+       Else the delivered control message at which the launcher did something to a pilot the message
+       does not mean (KilledNotNamed) / left out one it means (NamedNotKilled): what it is, the
+       launcher's view of the uids it names at that moment, whether the manager holds other pilots.
+       Without such a delivery: the same for the first request of the scenario.'''
     pids, post = [p['pid'] for p in trace['pilots']], None
-    for e in trace['events']:
+    kind = {p['pid']: p['kind'] for p in trace['pilots']}
+    evs  = trace['events']
+    if 'StateForWrongPilot' in clause or 'PilotFinalNotReported' in clause:
+        cs, bulk = {p: 'PEND' for p in pids}, {}
+        for e in evs:
+            if e['ev'] == 'WorkBegin':
+                for p in e['pids']:
+                    bulk[p] = len([q for q in e['pids'] if kind[q] == kind[p]])
+            now = {r['pid']: r['cs'] for r in e['post']}
+            if e['ev'] == 'JobEnds':
+                x, cs = e['pid'], dict(zip(pids, e['cspre']))
+                wrong = [y for y in pids if y != x and (now[y] != cs[y] or [1 for z in e['pubs'] if z[0] == y])]
+                lost  = e['final'] and e['listening'] and now[x] not in FINALS
+                if (wrong and 'Wrong' in clause) or (lost and 'NotReported' in clause):
+                    return '%s job state reported %s: %s launcher, bulk of %d' % (
+                        'final' if e['final'] else 'non-final',
+                        'from inside the submission' if e['during'] == 'submit' else 'after the submission',
+                        kind[x], bulk.get(x, 1))
+            cs = now
+    if 'NamedNotKilled' in clause:
+        jc, lostp = set(), None
+        for e in evs:
+            jc |= set(e['jobc'])
+            if e['ev'] in ('Work', 'End'):
+                for r in e['post']:
+                    if r['pre'] and r['lv'] == 'live' and r['pid'] not in jc and \
+                            (e['ev'] == 'End' or r['pid'] in e['pids']):
+                        lostp = r['pid']
+                        break
+            if lostp:
+                break
+        if lostp:
+            was = False
+            for e in evs:
+                isnow = [r for r in e['post'] if r['pid'] == lostp and r['pre']]
+                if e['ev'] == 'Deliver' and isnow and not was:
+                    if lostp in e['insubmit']:
+                        return 'kill request delivered while the launcher submits the pilot\'s job'
+                    if lostp in e['inwork']:
+                        return 'kill request delivered while work() is busy with the pilot, before its job is ' \
+                               'submitted (staging, another bulk of the call)'
+                    return 'kill request remembered for a pilot which arrives later'
+                was = bool(isnow)
+    for e in evs:
         if e['ev'] == 'Deliver':
-            m, views = e['msg'], _views(post, pids)
+            m    = e['msg']
+            lvp  = dict(zip(pids, e['lvpre']))
+            views = {p: ('final' if v in FINALS else 'not yet launched' if v == 'none' else v) for p, v in lvp.items()}
             kill = m['cmd'] == 'kill_pilots' and m['own']
             old  = {r['pid']: r for r in (post or [])}
-            launched = [p for p in pids if old.get(p, {}).get('lv', 'none') != 'none']
+            launched = [p for p in pids if lvp[p] != 'none']
             mean = (m['uids'] or launched) if kill else []
             hit  = set(e['jobc']) | set(x[0] for x in e['pubs'] if x[1] == 'CANCELED') | \
                    set(r['pid'] for r in e['post'] if r['pre'] and not old.get(r['pid'], {}).get('pre', False))
             miss = [p for p in mean if p in pids and
-                    ((old.get(p, {}).get('lv', 'none') == 'live' and p not in e['jobc']) or
-                     (old.get(p, {}).get('lv', 'none') == 'none' and
-                      not [r for r in e['post'] if r['pid'] == p and r['pre']]))]
+                    ((lvp[p] == 'live' and p not in e['jobc']) or
+                     (lvp[p] == 'none' and not [r for r in e['post'] if r['pid'] == p and r['pre']]))]
             if (hit - set(mean)) if 'NamedNotKilled' not in clause else miss:
                 what = 'kill request' if kill else 'kill message of another pilot manager' \
                        if m['cmd'] == 'kill_pilots' else 'cancel request'
-                return _describe(what, m['uids'], views, pids)
+                return _describe(what, m['uids'], views, pids) + WHERE[e['during']]
         post = e['post']
     post = None
-    for e in trace['events']:
+    for e in evs:
         if e['ev'] == 'Request':
             if not e['own']:
                 return _describe('kill message of another pilot manager', e['uids'], _views(post, pids), pids)
@@ -197,7 +330,7 @@ def classify(trace, clause=''):
 
 def validate(chk, inputs):
     traces = [K.PilotKillRig(inp['kinds'], inp['script']).run() for inp in inputs]
-    res, st = tracecheck.validate('PilotKill', 'PilotKillTrace', '', traces, max_batch=1500, timeout=1200)
+    res, st = tracecheck.validate('PilotKill', 'PilotKillTrace', '', traces, max_batch=3000, timeout=1200)
     chk.states += st['states']
     chk.transitions += st['transitions']
     chk.cmds.append(st['cmd'])
@@ -210,6 +343,10 @@ def validate(chk, inputs):
         bad = [e for e in errs if e.split('.')[0] == 'X']
         if bad:
             raise Machinery('pilotkill rig produced a malformed trace: %s %s' % (bad, inp))
+        if 'C14.StateForWrongPilot' in errs:
+            # CANCELED reported for the wrong pilot shows up as "canceled without being named"
+            # as well: the report is the cause
+            errs = [e for e in errs if e != 'C14.KilledNotNamed']
         for err in errs:
             if err.split('.')[0] != chk.pid:
                 continue
@@ -227,7 +364,9 @@ def run(chk, tier, seed):
     quick = tier == 'quick'
 
     # ---- 1. design model, exhaustive ------------------------------------------
-    for n, maxreq, maxctl in ([(3, 1, 2), (1, 2, 2)] if quick else [(3, 1, 2), (2, 2, 2), (1, 3, 3), (3, 2, 2)]):
+    c15 = chk.pid == 'C15'           # the share of C15: job reports reach the pilot (reduced run)
+    for n, maxreq, maxctl in ([(2, 1, 2)] if quick else
+                              [(2, 1, 2), (1, 3, 3), (2, 2, 2), (3, 1, 2)]):
         res = tlc.run('PilotKill', 'PilotKill', 'MC.cfg', workers=8, timeout=900,
                       extra_files=mc_cfg(n, maxreq, maxctl))
         chk.add_tlc(res, 'exhaustive:pilots=%d,requests=%d' % (n, maxreq))
@@ -256,11 +395,11 @@ def run(chk, tier, seed):
         seen.add(k)
         inputs.append({'kind': kind, 'kinds': kinds, 'script': script})
 
-    for n in (2, 3):
+    for n in ((3,) if quick else (2, 3)):
         dump = tlc.scratch('rpsim_')
         try:
             res = tlc.run('PilotKill', 'PilotKill', 'MC.cfg', workers=1, timeout=600,
-                          simulate='num=%d' % (150 if quick else 4000), depth=14,
+                          simulate='num=%d' % ((120 if c15 else 260) if quick else 4000), depth=18,
                           seed=rng.randrange(10 ** 6), dump_dir=dump,
                           extra_files=mc_cfg(n, 3, 3, symmetry=False, invariants=['TypeOK'], props=[]))
             chk.add_tlc(res, 'simulate:pilots=%d' % n)
@@ -271,12 +410,17 @@ def run(chk, tier, seed):
     n_tlc = len(inputs)
 
     # ---- 4. small scope ---------------------------------------------------------
-    for kinds, script in small_scope(rng, 450 if quick else None):
-        add('small-scope', kinds, script)
+    if not c15:
+        for kinds, script in small_scope(rng, 300 if quick else None):
+            add('small-scope', kinds, script)
+        for kinds, script in launch_window(rng, 120 if quick else None):
+            add('launch-window', kinds, script)
+    for kinds, script in job_reports(rng):
+        add('job-reports', kinds, script)
     n_small = len(inputs) - n_tlc
 
     # ---- 5. seeded random scenarios -----------------------------------------------
-    for _ in range(200 if quick else 6000):
+    for _ in range((100 if c15 else 200) if quick else 6000):
         add('random', *K.random_script(rng))
     n_rand = len(inputs) - n_tlc - n_small
 
@@ -285,7 +429,8 @@ def run(chk, tier, seed):
     chk.evaluations = len(inputs)
     nreq = sum(1 for t in traces for e in t['events'] if e['ev'] == 'Request')
     njob = sum(len(e['jobc']) for t in traces for e in t['events'])
-    chk.notes.append('kill scenarios: %d from TLC behaviours, %d small-scope (pilot situations x requests), '
+    chk.notes.append('kill scenarios: %d from TLC behaviours, %d small-scope (pilot situations x requests, delivery '
+                     'points inside work(), job reports from inside the submission on), '
                      '%d random; %d requests, %d batch job cancels recorded'
                      % (n_tlc, n_small, n_rand, nreq, njob))
     for i in (0, n_tlc, n_tlc + n_small):
